@@ -184,3 +184,6 @@ def run(run: common.Run):
                 run.fail(cases[-1], f'overlap_for_kernel({kh},{kw_}) = {ov} is smaller than the kernel radius + 1',
                          signature=dict(kind='overlap-too-small'))
     run.compare_lines(cases, lines, impls)
+    # whole-image exact model against multi-block runs: the partitioned run must equal the single-function model
+    import fuseimg
+    fuseimg.whole_image_leg(run, 6 if run.quick() else 60, blocks=(2, 3), base=800_000)
